@@ -92,12 +92,26 @@ Lemma log_ok_runs : forall log, log_ok c sv log ->
   Forall run_good (fr_pre (contacts_chrono log) []) /\ fr_cur (contacts_chrono log) [] = cur_run sv log /\ all_ok (cur_run sv log).
 Proof.
   induction log as [|e r IH]; intros H; [cbn; repeat split; constructor|].
-  destruct H as [Hh Hr]. destruct (IH Hr) as (A & B & C0). rewrite contacts_cons.
+  destruct H as (Hh & _ & Hr). destruct (IH Hr) as (A & B & C0). rewrite contacts_cons.
   destruct e as [s' m a ok t| |]; cbn [contact_of]; try (rewrite app_nil_r; cbn [cur_run]; auto).
   cbn [cur_run] in *. destruct (list_eqb s' sv); [|rewrite app_nil_r; auto].
   destruct (fr_snoc (contacts_chrono r) [] t ok) as [P Q]. rewrite P, Q. destruct ok.
   - split; [apply Forall_app; split; [exact A|constructor; [rewrite B; apply all_ok_rev, C0|constructor]]|]. split; [reflexivity|exact I].
   - split; [exact A|]. split; [rewrite B; reflexivity|]. split; [exact Hh|exact C0].
+Qed.
+
+(* the eviction clause, read off the log: whenever sv was evicted with retries configured, its current run of failing
+   contacts had at least two entries *)
+Fixpoint evictions_ok (log : list hev) : Prop :=
+  match log with
+  | [] => True
+  | HEvict s' _ :: r => (list_eqb s' sv = true -> 0 < ra -> (2 <= length (cur_run sv r))%nat) /\ evictions_ok r
+  | _ :: r => evictions_ok r
+  end.
+Lemma log_ok_evictions : forall log, log_ok c sv log -> evictions_ok log.
+Proof.
+  induction log as [|e r IH]; intros H; [exact I|]. destruct H as (_ & He & Hr). specialize (IH Hr).
+  destruct e; cbn [evictions_ok]; try exact IH. split; [exact He|exact IH].
 Qed.
 
 Theorem log_ok_windows log : log_ok c sv log -> windows_ok ra rt dt (contacts_chrono log) = true.
